@@ -53,6 +53,8 @@ pub fn run(sim: &Sim, _idx: u64) {
     // server that takes all of them only looks at the signal when nobody is waiting to be accepted
     const BURST: usize = 48;
     let burst = !edge && !end_incoming_instead && sim.chance(1, 6);
+    // or the listener is closed first (the incoming stream ends) and the signal fires afterwards
+    let end_incoming_before_signal: Option<u64> = if !edge && !end_incoming_instead && !burst && sim.chance(1, 6) { Some(sim.pick(&[0u64, 1_000, 30_000, 100_000])) } else { None };
     // server knobs that must not weaken the drain: a request timeout (bounds the time to the
     // response *headers* only; handler latencies stay below it) and a maximum connection age (the
     // server gracefully retires a connection of that age; its accepted calls still complete and
@@ -134,6 +136,7 @@ pub fn run(sim: &Sim, _idx: u64) {
                 }
             });
         }
+        let inc_ended_at: Arc<Mutex<Option<Duration>>> = Arc::new(Mutex::new(None));
         let incoming = tokio_stream::wrappers::UnboundedReceiverStream::new(inc_rx);
         let srv = spawn_server_incoming(&handler, &no_comp(), &sopts, incoming, Some(async move {
             let _ = sig_rx.await;
@@ -158,6 +161,19 @@ pub fn run(sim: &Sim, _idx: u64) {
         }
         tokio::time::sleep(Duration::from_micros(10)).await;
         let t_start = net.now();
+        if let Some(at) = end_incoming_before_signal {
+            // (after the set-up connections: the listener closes `at` after the calls start)
+            let (inc_tx, sim2, net2, inc_ended_at) = (inc_tx.clone(), sim.clone(), net.clone(), inc_ended_at.clone());
+            tokio::spawn(async move {
+                tokio::time::sleep(Duration::from_micros(at)).await;
+                if inc_tx.lock().unwrap().take().is_some() {
+                    let now = net2.now();
+                    sim2.fault("incoming-stream-ends-before-the-signal");
+                    sim2.ev(|| format!("t={now:?} INCOMING STREAM ENDS (the signal is still to come)"));
+                    *inc_ended_at.lock().unwrap() = Some(now);
+                }
+            });
+        }
         // calls
         let results: Arc<Mutex<Vec<Option<Observed>>>> = Arc::new(Mutex::new((0..n).map(|_| None).collect()));
         let mut tasks = vec![];
@@ -179,8 +195,13 @@ pub fn run(sim: &Sim, _idx: u64) {
         if edge {
             tokio::time::sleep(Duration::from_micros(edge_at_us)).await;
             let connector2 = connector.clone();
+            // (the caller keeps this channel, like the others, if channels are kept)
+            let edge_ch = endpoint(&ClientOpts::default()).connect_with_connector_lazy(connector2);
+            if keep_channels {
+                channels.push(edge_ch.clone());
+            }
             let r = tokio::time::timeout(Duration::from_secs(120), async move {
-                let ch = endpoint(&ClientOpts::default()).connect_with_connector_lazy(connector2);
+                let ch = edge_ch;
                 let mut client = crate::rawsvc::raw_client::RawClient::new(ch);
                 let mut req = tonic::Request::new(RawMsg(bytes::Bytes::from_static(b"edge")));
                 req.metadata_mut().insert("sim-call", "998".parse().unwrap());
@@ -329,13 +350,20 @@ pub fn run(sim: &Sim, _idx: u64) {
             if let Ok(Err(e)) = &serve_res {
                 v13(sim, "serve-returned-error", e.clone());
             }
-            if t_res < t_sig {
+            // shutdown begins with the signal, or earlier when the listener was closed first
+            let began = inc_ended_at.lock().unwrap().map(|t| t.min(t_sig)).unwrap_or(t_sig);
+            if t_res < began {
                 v13(sim, "serve-resolved-before-signal", format!("resolved at {t_res:?}, signal at {t_sig:?}"));
             }
         } else if drops.iter().all(|d| d.is_some()) {
             v13(sim, "serve-does-not-resolve", format!("all {} connections closed by {:?} (signal at {t_sig:?}) but the serve future had not resolved 300 virtual seconds after {t_wait0:?}", drops.len(), drops.iter().flatten().max()));
         } else {
-            sim.probe("connection-stays-open-after-shutdown");
+            // Shutdown has begun (signal fired or listener closed), every call has long finished and
+            // 300 virtual seconds have passed: a graceful server closes its connections then, also
+            // idle ones whose clients keep their channels, and the serve future resolves. (First
+            // kept as a probe only; on the unmodified tree it never fired in millions of runs.)
+            let open: Vec<usize> = accepted.iter().zip(drops.iter()).filter(|(_, d)| d.is_none()).map(|(id, _)| *id).collect();
+            v13(sim, "serve-never-resolves-after-shutdown-began", format!("shutdown began at {t_sig:?}; 300 virtual seconds after the last call finished the serve future has not resolved and the server still holds connections {open:?} open (clients keep channels: {keep_channels})"));
         }
         let _ = t_start;
     });
